@@ -6,7 +6,11 @@ use serde_json::{json, Value};
 
 use crate::engine::{self, Ctx, Part};
 
+pub mod c03;
+pub mod c04;
+pub mod c05;
 pub mod c19;
+pub mod common;
 
 pub struct Check {
     pub parts: Vec<Box<dyn Part>>,
@@ -18,6 +22,9 @@ pub struct Check {
 
 fn build(ctx: &Ctx) -> Option<Check> {
     Some(match ctx.property.as_str() {
+        "C03" => c03::check(ctx),
+        "C04" => c04::check(ctx),
+        "C05" => c05::check(ctx),
         "C19" => c19::check(ctx),
         _ => return None,
     })
